@@ -60,7 +60,7 @@ CTC_PRED = {"Simple constraints": "is_simple_constraint", "Requires constraints"
 
 def plan(tier, seed):
     return [{"shard": i, "nshards": NSHARDS, "nmax": 5 if tier == "quick" else 6,
-             "n_random": 400 if tier == "quick" else 12000, "n_hist": 200 if tier == "quick" else 6000,
+             "n_random": 400 if tier == "quick" else 100000, "n_hist": 200 if tier == "quick" else 40000,
              "corpus_max": 500 if tier == "quick" else 2000, "big": 0 if tier == "quick" else 10}
             for i in range(NSHARDS)]
 
